@@ -18,6 +18,9 @@ that rules are invariant under the commonest behaviour-preserving rewrites:
   N12 `a, b = x, y` (targets plain names/attribute paths none of which the right-hand sides mention)  ->  `a = x; b = y`
   N13 statement `d.update(k=v, ...)` (keywords only)  ->  `d["k"] = v; ...`;  statement `d.setdefault("k", v)`  ->
       `if "k" not in d: d["k"] = v`   (d a plain name or attribute path)
+  N14 `x = E` directly followed by `return x`  ->  `return E`
+  N15 `while True: if X: break; REST` (no loop else)  ->  `while not X: REST`
+  N16 `x = []; for a in xs: [if c:] x.append(E)` (adjacent, x not used in E/xs/c)  ->  `x = [E for a in xs if c]`
   N6  `except T as e:` binding is kept, but the py2 idiom `e = sys.exc_info()[1]` as the first statement of a handler
       is rewritten to the binding form (`except T as e:`)
 
@@ -97,6 +100,21 @@ class Desugar(ast.NodeTransformer):
             return out
         return n
 
+    def visit_While(self, n):
+        # N15: while True: if X: break; REST   ->   while not X: REST      (no else clause on the loop)
+        self.generic_visit(n)
+        if isinstance(n.test, ast.Constant) and n.test.value is True and not n.orelse and n.body and isinstance(n.body[0], ast.If) \
+                and not n.body[0].orelse and len(n.body[0].body) == 1 and isinstance(n.body[0].body[0], ast.Break) and len(n.body) > 1:
+            t = n.body[0].test
+            if isinstance(t, ast.UnaryOp) and isinstance(t.op, ast.Not):
+                nt = t.operand
+            else:
+                nt = ast.copy_location(ast.UnaryOp(op=ast.Not(), operand=t), t)
+            new = ast.copy_location(ast.While(test=nt, body=n.body[1:], orelse=[]), n)
+            ast.fix_missing_locations(new)
+            return new
+        return n
+
     def visit_Call(self, n):
         self.generic_visit(n)
         if isinstance(n.func, ast.Name) and n.func.id in ("max", "min", "sum", "any", "all") and len(n.args) == 1 and not n.keywords \
@@ -170,6 +188,23 @@ class Desugar(ast.NodeTransformer):
                     out.append(new)
                     continue
             out.append(st)
+        return out
+
+    def _return_temps(self, stmts):
+        # N14: `x = E` directly followed by `return x` (x a plain local name)  ->  `return E`
+        out = []
+        i = 0
+        while i < len(stmts):
+            st = stmts[i]
+            nxt = stmts[i + 1] if i + 1 < len(stmts) else None
+            if isinstance(st, ast.Assign) and len(st.targets) == 1 and isinstance(st.targets[0], ast.Name) \
+                    and isinstance(nxt, ast.Return) and isinstance(nxt.value, ast.Name) and nxt.value.id == st.targets[0].id \
+                    and not isinstance(st.value, (ast.Yield, ast.YieldFrom, ast.Await)):
+                out.append(ast.copy_location(ast.Return(value=st.value), st))
+                i += 2
+                continue
+            out.append(st)
+            i += 1
         return out
 
     def _split_parallel_assignments(self, stmts):
@@ -253,6 +288,25 @@ class Desugar(ast.NodeTransformer):
                     out.append(new)
                     i += 2
                     continue
+            # N16: x = []; for a in xs: [if c:] x.append(E)   ->   x = [E for a in xs if c]
+            if isinstance(st, ast.Assign) and len(st.targets) == 1 and isinstance(st.targets[0], ast.Name) and isinstance(st.value, ast.List) \
+                    and not st.value.elts and isinstance(nxt, ast.For) and not nxt.orelse and len(nxt.body) == 1:
+                x = st.targets[0].id
+                b = nxt.body[0]
+                conds = []
+                while isinstance(b, ast.If) and not b.orelse and len(b.body) == 1:
+                    conds.append(b.test)
+                    b = b.body[0]
+                if isinstance(b, ast.Expr) and isinstance(b.value, ast.Call) and isinstance(b.value.func, ast.Attribute) \
+                        and b.value.func.attr == "append" and isinstance(b.value.func.value, ast.Name) and b.value.func.value.id == x \
+                        and len(b.value.args) == 1 and not b.value.keywords \
+                        and not any(isinstance(n_, ast.Name) and n_.id == x for e_ in [b.value.args[0], nxt.iter] + conds for n_ in ast.walk(e_)):
+                    comp = ast.ListComp(elt=b.value.args[0], generators=[ast.comprehension(target=nxt.target, iter=nxt.iter, ifs=conds, is_async=0)])
+                    new = ast.copy_location(ast.Assign(targets=st.targets, value=comp), nxt)
+                    ast.fix_missing_locations(new)
+                    out.append(new)
+                    i += 2
+                    continue
             # N9
             if isinstance(st, ast.For) and not st.orelse and len(st.body) == 1 and isinstance(st.body[0], ast.If) and not st.body[0].orelse \
                     and len(st.body[0].body) == 1 and isinstance(st.body[0].body[0], ast.Return) and isinstance(nxt, ast.Return) \
@@ -288,6 +342,7 @@ class Desugar(ast.NodeTransformer):
             r = self.visit(s)
             visited.extend(r if isinstance(r, list) else [r])
         visited = self._loops_to_builtins(visited)
+        visited = self._return_temps(visited)
         visited = self._split_parallel_assignments(visited)
         visited = self._dict_calls(visited)
         visited = self._ifexp_statements(visited)
